@@ -673,23 +673,32 @@ func VerifC10_RelTypedRemove()    { vRun(2, func() { vStepRel(12, 1, 60) }) }
 func vHistory(rel bool, steps, pickMax int) {
 	vMode = 0
 	var W *vWorld
+	// pad 61: IDs 61..66 straddle the first word boundary like the quick placement, but the
+	// thorough tier does not multiply the histories by the other placements
 	if rel {
-		W = vShapeRel(1, 60, true, 0)
+		W = vShapeRel(1, 61, true, 0)
 	} else {
-		W = vShapePlain(1, 60, 1)
+		W = vShapePlain(1, 61, 1)
 	}
 	vTighten(W.w)
 	vPickMax = pickMax
 	for k := 0; k < steps; k++ {
-		W.applyOp(vPickOp(), "step")
+		W.applyOp(vPickOp(steps), "step")
 	}
 	vPickMax = 0
 }
 
-func vPickOp() int {
+// two-step histories choose among all 13 operations, three-step histories among the first 6
+// (Copy, Set, Shrink and the typed variants appear in the two-step histories)
+func vPickOp(steps int) int {
 	save := vPickMax
 	vPickMax = 0
-	op := vPick("op", 13)
+	op := 0
+	if steps <= 2 {
+		op = vPick("op", 13)
+	} else {
+		op = vPick("op", 6) // New, Add, Remove, Exchange, SetRelations, RemoveEntity
+	}
 	vPickMax = save
 	return op
 }
